@@ -125,12 +125,15 @@ Definition order_like (specs : list mapspec) (name : str) (axset : list str) : r
 
 Definition trace_fuel (specs : list mapspec) : nat := S (length specs).
 
+(* {name: order_like_mapspec_axes(name, axes_set)} for one output *)
+Definition trace_one (specs : list mapspec) (o : str) : result (list (str * list str)) :=
+  do d <- trace_dep (trace_fuel specs) specs o;
+  mapM (fun nv => do t <- order_like specs (fst nv) (snd nv); Ok (fst nv, t)) (reorder d).
+
+(* `reordered` is a defaultdict: an output without any dependency gets no entry *)
 Definition trace (specs : list mapspec) : result (list (str * list (str * list str))) :=
-  do deps <- mapM (fun o => do d <- trace_dep (trace_fuel specs) specs o; Ok (o, d)) (mapping_keys specs);
-  mapM (fun od =>
-          do l <- mapM (fun nv => do t <- order_like specs (fst nv) (snd nv); Ok (fst nv, t)) (reorder (snd od));
-          Ok (fst od, l))
-       (filter (fun od => match reorder (snd od) with [] => false | _ => true end) deps).
+  do rows <- mapM (fun o => do l <- trace_one specs o; Ok (o, l)) (mapping_keys specs);
+  Ok (filter (fun r => match snd r with [] => false | _ => true end) rows).
 
 (* ---------- _xarray : coordinates and dims of one DataArray ---------- *)
 Record coord := { co_name : str; co_axes : list str; co_srcs : list str }.
@@ -172,7 +175,8 @@ Definition kept_of (specs : list mapspec) (inputs : list str) (li : bool) (targe
   : list (str * list str) :=
   filter (fun na => visible inputs li (fst na) && full_axes specs na) target.
 
-Definition coords_of (specs : list mapspec) (inputs loadable : list str) (li : bool) (o : str)
+(* the coordinate entries in the order in which `coords[name] = ...` is executed *)
+Definition coords_raw_of (specs : list mapspec) (inputs loadable : list str) (li : bool) (o : str)
   : result (list coord) :=
   do tr <- trace specs;
   let target := target_of tr o in
@@ -180,7 +184,12 @@ Definition coords_of (specs : list mapspec) (inputs loadable : list str) (li : b
   then Err KeyError                                  (* data_loader(name) of something that is no output *)
   else if existsb (fun na => negb (mem_str (fst na) (map aname (all_aspecs specs)))) target
   then Err KeyError                                  (* axes_mapping[name] *)
-  else Ok (coords_dict (coords_raw (group (kept_of specs inputs li target)))).
+  else Ok (coords_raw (group (kept_of specs inputs li target))).
+
+Definition coords_of (specs : list mapspec) (inputs loadable : list str) (li : bool) (o : str)
+  : result (list coord) :=
+  do raw <- coords_raw_of specs inputs loadable li o;
+  Ok (coords_dict raw).
 
 (* dims=axes_mapping[output_name]; an unnamed dimension cannot be a DataArray dimension here
    (outputs never carry ':'; xarray would raise for dims containing None together with named ones) *)
